@@ -10,6 +10,7 @@ HERE = os.path.dirname(os.path.abspath(__file__))
 args = [a for a in sys.argv[1:] if not a.startswith('--')]
 opts = {a.split('=')[0]: (a.split('=') + [''])[1] for a in sys.argv[1:] if a.startswith('--')}
 pid = args[0]
+prop = pid[:3]
 variants = args[1:] or ['A', 'B']
 also = [x for x in opts.get('--also', '').split(',') if x]
 tier = opts.get('--tier', 'quick')
@@ -45,7 +46,7 @@ for v in variants:
     subprocess.run(['git', '-C', '/repo', 'worktree', 'remove', '--force', wt], stdout=subprocess.DEVNULL, stderr=subprocess.DEVNULL)
     os.makedirs('/tmp/seedrun', exist_ok=True)
     subprocess.run(['git', '-C', '/repo', 'worktree', 'add', '-q', '--detach', wt, 'HEAD'], check=True)
-    meta = {'seed_id': '%s-%s' % (pid, v), 'property': pid, 'repo_head': subprocess.check_output(
+    meta = {'seed_id': '%s-%s' % (pid, v), 'property': prop, 'repo_head': subprocess.check_output(
         ['git', '-C', '/repo', 'rev-parse', '--short', 'HEAD']).decode().strip()}
     try:
         # demos are confirmed in the worktree they were written in (some of
@@ -77,7 +78,7 @@ for v in variants:
         confirmed = (rc0 == 0 and rc1 != 0 and (skip_tests or not (base_pass - pp)))
         meta['confirmed'] = confirmed
         res = {}
-        for c in [pid] + also:
+        for c in [prop] + also:
             t0 = time.time()
             e = dict(os.environ, VERIF_DASSH_SRC=wt)
             r = subprocess.run([os.path.join(HERE, 'check'), c, '--tier', tier], env=e,
